@@ -16,7 +16,7 @@ From Coq Require Import List Bool Arith NArith ZArith Lia.
 From Coq.Strings Require Import Byte.
 From TV Require Import Base.Prelude Base.Utf8 Base.Winnow Gen.Consts.
 From TV Require Import Model.Trivia Model.Strings Model.Datetime Model.Numbers Model.Tree Model.Parse Model.Document.
-From TV Require Import Model.Error Proofs.ErrorRange.
+From TV Require Import Model.Error Spec.Position Proofs.ErrorPos Proofs.ErrorRange.
 Import ListNotations.
 
 Ltac nope := first [ discriminate | let X := fresh in intro X; discriminate X ].
@@ -115,13 +115,13 @@ Proof.
   intros Hw Hp Hf i e i' Hi. unfold bind. pose proof (Hw i Hi) as W.
   destruct (p i) as [a i1|e1 i1|e1 i1|st] eqn:E; try nope.
   - intro E2. eapply Hf; [exact W|exact E2].
-  - intro E2. injection E2 as <- <-. eapply Hp; eassumption.
+  - intro E2. injection E2 as <- <-. eapply Hp; [exact Hi|exact E].
 Qed.
 
 Lemma C_pmap {A B'} (f : A -> B') p : C p -> C (pmap f p).
 Proof.
   intros Hp i e i' Hi. unfold pmap. destruct (p i) eqn:E; try nope.
-  intro E2. injection E2 as <- <-. eapply Hp; eassumption.
+  intro E2. injection E2 as <- <-. eapply Hp; [exact Hi|exact E].
 Qed.
 Lemma C_pvalue {A B'} (b : B') (p : parser A) : C p -> C (pvalue b p). Proof. apply C_pmap. Qed.
 Lemma C_pvoid {A} (p : parser A) : C p -> C (pvoid p). Proof. apply C_pmap. Qed.
@@ -134,7 +134,7 @@ Qed.
 Lemma C_opt {A} (p : parser A) : C p -> C (opt p).
 Proof.
   intros Hp i e i' Hi. unfold opt. destruct (p i) eqn:E; try nope.
-  intro E2. injection E2 as <- <-. eapply Hp; eassumption.
+  intro E2. injection E2 as <- <-. eapply Hp; [exact Hi|exact E].
 Qed.
 
 Lemma C_cut_err {A} (p : parser A) : C p -> B p -> C (cut_err p).
@@ -148,7 +148,7 @@ Lemma C_alt {A} (p q : parser A) : C p -> C q -> C (alt p q).
 Proof.
   intros Hp Hq i e i' Hi. unfold alt. destruct (p i) eqn:E; try nope.
   - intro E2. eapply Hq; eassumption.
-  - intro E2. injection E2 as <- <-. eapply Hp; eassumption.
+  - intro E2. injection E2 as <- <-. eapply Hp; [exact Hi|exact E].
 Qed.
 
 Lemma C_context {A} (p : parser A) : C (context p).
@@ -161,37 +161,37 @@ Lemma C_verify {A} (f : A -> bool) p : C p -> C (verify f p).
 Proof.
   intros Hp i e i' Hi. unfold verify. destruct (p i) eqn:E; try nope.
   - destruct (f a); nope.
-  - intro E2. injection E2 as <- <-. eapply Hp; eassumption.
+  - intro E2. injection E2 as <- <-. eapply Hp; [exact Hi|exact E].
 Qed.
 
 Lemma C_verify_map {A B'} (f : A -> option B') p : C p -> C (verify_map f p).
 Proof.
   intros Hp i e i' Hi. unfold verify_map. destruct (p i) eqn:E; try nope.
   - destruct (f a); nope.
-  - intro E2. injection E2 as <- <-. eapply Hp; eassumption.
+  - intro E2. injection E2 as <- <-. eapply Hp; [exact Hi|exact E].
 Qed.
 
 Lemma C_try_map {A B'} (f : A -> tm B') p : C p -> C (try_map f p).
 Proof.
   intros Hp i e i' Hi. unfold try_map. destruct (p i) eqn:E; try nope.
   - destruct (f a); nope.
-  - intro E2. injection E2 as <- <-. eapply Hp; eassumption.
+  - intro E2. injection E2 as <- <-. eapply Hp; [exact Hi|exact E].
 Qed.
 
 Lemma C_span {A} (p : parser A) : C p -> C (span_ p).
 Proof.
   intros Hp i e i' Hi. unfold span_. destruct (p i) eqn:E; try nope.
-  intro E2. injection E2 as <- <-. eapply Hp; eassumption.
+  intro E2. injection E2 as <- <-. eapply Hp; [exact Hi|exact E].
 Qed.
 Lemma C_with_span {A} (p : parser A) : C p -> C (with_span p).
 Proof.
   intros Hp i e i' Hi. unfold with_span. destruct (p i) eqn:E; try nope.
-  intro E2. injection E2 as <- <-. eapply Hp; eassumption.
+  intro E2. injection E2 as <- <-. eapply Hp; [exact Hi|exact E].
 Qed.
 Lemma C_taken {A} (p : parser A) : C p -> C (taken p).
 Proof.
   intros Hp i e i' Hi. unfold taken. destruct (p i) eqn:E; try nope.
-  intro E2. injection E2 as <- <-. eapply Hp; eassumption.
+  intro E2. injection E2 as <- <-. eapply Hp; [exact Hi|exact E].
 Qed.
 
 Lemma C_and_then {A B'} (p : parser A) (inner : A -> sub B') :
@@ -200,14 +200,14 @@ Proof.
   intros Hp Hin i e i' Hi. unfold and_then. destruct (p i) eqn:E; try nope.
   - destruct (inner a) eqn:Ei; try nope. intro E2. injection E2 as <- <-.
     left. eapply Hin; exact Ei.
-  - intro E2. injection E2 as <- <-. eapply Hp; eassumption.
+  - intro E2. injection E2 as <- <-. eapply Hp; [exact Hi|exact E].
 Qed.
 
 Lemma C_unchecked_utf8 w p : C p -> C (unchecked_utf8 w p).
 Proof.
   intros Hp i e i' Hi. unfold unchecked_utf8. destruct (p i) eqn:E; try nope.
   - destruct (utf8_valid_b a); nope.
-  - intro E2. injection E2 as <- <-. eapply Hp; eassumption.
+  - intro E2. injection E2 as <- <-. eapply Hp; [exact Hi|exact E].
 Qed.
 
 Lemma C_preceded {A B'} (p : parser A) (q : parser B') : pres s p -> C p -> C q -> C (preceded p q).
@@ -233,7 +233,7 @@ Proof.
   intros Hw Hp. induction fuel as [|f IH]; intros acc i e i' Hi; cbn [repeat0_f]; [nope|].
   pose proof (Hw i Hi) as W. destruct (p i) as [a i1|e1 i1|e1 i1|st] eqn:E; try nope.
   - destruct (Nat.eqb (length (rest i1)) (length (rest i))); [nope|]. apply IH; exact W.
-  - intro E2. injection E2 as <- <-. eapply Hp; eassumption.
+  - intro E2. injection E2 as <- <-. eapply Hp; [exact Hi|exact E].
 Qed.
 Lemma C_repeat0 {A} (p : parser A) : pres s p -> C p -> C (repeat0 p).
 Proof. intros Hw Hp i e i' Hi. unfold repeat0. apply C_repeat0_f; assumption. Qed.
@@ -242,7 +242,7 @@ Proof.
   intros Hw Hp i e i' Hi. unfold repeat1. pose proof (Hw i Hi) as W.
   destruct (p i) as [a i1|e1 i1|e1 i1|st] eqn:E; try nope.
   - apply C_repeat0_f; assumption.
-  - intro E2. injection E2 as <- <-. eapply Hp; eassumption.
+  - intro E2. injection E2 as <- <-. eapply Hp; [exact Hi|exact E].
 Qed.
 
 Lemma C_separated_loop {A S} fuel (p : parser A) (sep : parser S) :
@@ -253,8 +253,8 @@ Proof.
   - destruct (Nat.eqb (length (rest i1)) (length (rest i))); [nope|].
     pose proof (Hwp i1 W1) as W2. destruct (p i1) as [a i2|e2 i2|e2 i2|st] eqn:E2; try nope.
     + apply IH; exact W2.
-    + intro E3. injection E3 as <- <-. eapply Hp; eassumption.
-  - intro E3. injection E3 as <- <-. eapply Hs; eassumption.
+    + intro E3. injection E3 as <- <-. eapply Hp; [exact W1|exact E2].
+  - intro E3. injection E3 as <- <-. eapply Hs; [exact Hi|exact E1].
 Qed.
 Lemma C_separated0 {A S} (p : parser A) (sep : parser S) :
   pres s p -> pres s sep -> C p -> C sep -> C (separated0 p sep).
@@ -262,7 +262,7 @@ Proof.
   intros Hwp Hws Hp Hs i e i' Hi. unfold separated0. pose proof (Hwp i Hi) as W.
   destruct (p i) as [a i1|e1 i1|e1 i1|st] eqn:E; try nope.
   - apply C_separated_loop; assumption.
-  - intro E2. injection E2 as <- <-. eapply Hp; eassumption.
+  - intro E2. injection E2 as <- <-. eapply Hp; [exact Hi|exact E].
 Qed.
 Lemma C_separated1 {A S} (p : parser A) (sep : parser S) :
   pres s p -> pres s sep -> C p -> C sep -> C (separated1 p sep).
@@ -270,7 +270,7 @@ Proof.
   intros Hwp Hws Hp Hs i e i' Hi. unfold separated1. pose proof (Hwp i Hi) as W.
   destruct (p i) as [a i1|e1 i1|e1 i1|st] eqn:E; try nope.
   - apply C_separated_loop; assumption.
-  - intro E2. injection E2 as <- <-. eapply Hp; eassumption.
+  - intro E2. injection E2 as <- <-. eapply Hp; [exact Hi|exact E].
 Qed.
 
 Lemma C_check_recursion {A} (p : parser A) : C p -> C (check_recursion p).
@@ -295,13 +295,13 @@ Proof.
   intros Hw Hp Hf i e i' Hi. unfold bind. pose proof (Hw i Hi) as W.
   destruct (p i) as [a i1|e1 i1|e1 i1|st] eqn:E; try nope.
   - intro E2. eapply Hf; [exact W|exact E2].
-  - intro E2. injection E2 as <- <-. eapply Hp; eassumption.
+  - intro E2. injection E2 as <- <-. eapply Hp; [exact Hi|exact E].
 Qed.
 
 Lemma B_pmap {A B'} (f : A -> B') p : B p -> B (pmap f p).
 Proof.
   intros Hp i e i' Hi. unfold pmap. destruct (p i) eqn:E; try nope.
-  intro E2. injection E2 as <- <-. eapply Hp; eassumption.
+  intro E2. injection E2 as <- <-. eapply Hp; [exact Hi|exact E].
 Qed.
 Lemma B_pvalue {A B'} (b : B') (p : parser A) : B p -> B (pvalue b p). Proof. apply B_pmap. Qed.
 Lemma B_pvoid {A} (p : parser A) : B p -> B (pvoid p). Proof. apply B_pmap. Qed.
@@ -328,18 +328,18 @@ Lemma B_try_map {A B'} (f : A -> tm B') p : B p -> B (try_map f p).
 Proof.
   intros Hp i e i' Hi. unfold try_map. destruct (p i) eqn:E; try nope.
   - destruct (f a); try nope. intro E2. injection E2 as <- <-. apply good_cause.
-  - intro E2. injection E2 as <- <-. eapply Hp; eassumption.
+  - intro E2. injection E2 as <- <-. eapply Hp; [exact Hi|exact E].
 Qed.
 
 Lemma B_span {A} (p : parser A) : B p -> B (span_ p).
 Proof.
   intros Hp i e i' Hi. unfold span_. destruct (p i) eqn:E; try nope.
-  intro E2. injection E2 as <- <-. eapply Hp; eassumption.
+  intro E2. injection E2 as <- <-. eapply Hp; [exact Hi|exact E].
 Qed.
 Lemma B_with_span {A} (p : parser A) : B p -> B (with_span p).
 Proof.
   intros Hp i e i' Hi. unfold with_span. destruct (p i) eqn:E; try nope.
-  intro E2. injection E2 as <- <-. eapply Hp; eassumption.
+  intro E2. injection E2 as <- <-. eapply Hp; [exact Hi|exact E].
 Qed.
 
 Lemma B_and_then {A B'} (p : parser A) (inner : A -> sub B') :
@@ -348,7 +348,7 @@ Proof.
   intros Hp Hin i e i' Hi. unfold and_then. destruct (p i) eqn:E; try nope.
   - destruct (inner a) eqn:Ei; try nope. intro E2. injection E2 as <- <-.
     left. eapply Hin; exact Ei.
-  - intro E2. injection E2 as <- <-. eapply Hp; eassumption.
+  - intro E2. injection E2 as <- <-. eapply Hp; [exact Hi|exact E].
 Qed.
 
 Lemma B_take_while0 f : B (take_while0 f).
@@ -358,7 +358,7 @@ Lemma B_unchecked_utf8 w p : B p -> B (unchecked_utf8 w p).
 Proof.
   intros Hp i e i' Hi. unfold unchecked_utf8. destruct (p i) eqn:E; try nope.
   - destruct (utf8_valid_b a); nope.
-  - intro E2. injection E2 as <- <-. eapply Hp; eassumption.
+  - intro E2. injection E2 as <- <-. eapply Hp; [exact Hi|exact E].
 Qed.
 
 Lemma B_repeat0 {A} (p : parser A) : B (repeat0 p).
@@ -377,13 +377,13 @@ Proof.
 Qed.
 Lemma B_separated0 {A S} (p : parser A) (sep : parser S) : B (separated0 p sep).
 Proof.
-  intros i e i' _. unfold separated0. destruct (p i); try nope. apply B_separated_loop.
+  intros i e i' _. unfold separated0. destruct (p i); try nope. intro X. exfalso. exact (B_separated_loop _ _ _ _ _ _ _ X).
 Qed.
 Lemma B_separated1 {A S} (p : parser A) (sep : parser S) : B p -> B (separated1 p sep).
 Proof.
   intros Hp i e i' Hi. unfold separated1. destruct (p i) eqn:E; try nope.
-  - apply B_separated_loop.
-  - intro E2. injection E2 as <- <-. eapply Hp; eassumption.
+  - intro X. exfalso. exact (B_separated_loop _ _ _ _ _ _ _ X).
+  - intro E2. injection E2 as <- <-. eapply Hp; [exact Hi|exact E].
 Qed.
 
 Lemma B_check_recursion {A} (p : parser A) : B p -> B (check_recursion p).
@@ -397,6 +397,7 @@ Qed.
 
 End Msg.
 
+Global Hint Resolve NC_C : msg.
 Global Hint Resolve NC_ret NC_fail NC_any NC_one_of NC_lit NC_take_while_mn NC_take_n NC_eof NC_pmap NC_opt
   NC_bind NC_alt NC_unchecked_utf8 NC_byte NC_none_of NC_pvoid NC_pvalue NC_take_while0 NC_take_while1 : nc.
 
@@ -450,7 +451,604 @@ Ltac msg_step :=
   | |- C _ (check_recursion _) => apply C_check_recursion
   | |- B _ (check_recursion _) => apply B_check_recursion
   | |- B _ (take_while0 _) => apply B_take_while0
-  | |- C _ _ => first [ solve [auto 10 with msg] | apply NC_C; solve [auto 10 with nc] ]
-  | |- B _ _ => solve [auto 10 with msg]
+  | |- C _ _ => first [ solve [auto 10 with msg nc] | apply NC_C; solve [auto 10 with nc] ]
+  | |- B _ _ => solve [auto 10 with msg nc]
   end.
 Ltac msg_auto := repeat msg_step.
+
+(* ==================================================================================== *)
+(* the grammar                                                                          *)
+(* ==================================================================================== *)
+Global Hint Resolve pres_array_value pres_array_values pres_array pres_inline_keyval pres_inline_table
+  pres_value_body pres_value_step pres_value_f pres_mlb_quote_loop pres_doc_loop pres_document : pres.
+
+Definition LAB (s : bytes) {A} (p : parser A) : Prop := C s p /\ B s p.
+
+(* errors of `p` started on the particular input i *)
+Definition lab_at (s : bytes) {A} (p : parser A) (i : input) : Prop :=
+  forall e i', (p i = Cut e i' \/ p i = Bt e i') -> good s e i'.
+
+Lemma LAB_at s {A} (p : parser A) i : LAB s p -> wf s i -> lab_at s p i.
+Proof. intros [Hc Hb] Hi e i' [E|E]; [eapply Hc|eapply Hb]; eassumption. Qed.
+
+Lemma context_err {A} (p : parser A) i e i' :
+  (context p i = Cut e i' \/ context p i = Bt e i') -> labelled e.
+Proof.
+  unfold context. destruct (p i); intros [E|E]; try discriminate; injection E as <- <-; right; reflexivity.
+Qed.
+
+(* ---- Trivia ---------------------------------------------------------------------------- *)
+Lemma NC_ws : NC ws.
+Proof. unfold ws. auto with nc. Qed.
+Lemma B_ws s : B s ws.
+Proof. unfold ws. msg_auto. Qed.
+Lemma NC_comment : NC comment.
+Proof. unfold comment. repeat (apply NC_bind; [auto with nc|intro]). auto with nc. Qed.
+Lemma NC_newline : NC newline.
+Proof.
+  unfold newline. apply NC_bind; [auto with nc|intro b].
+  destruct (byte_eqb b x0a); [unfold empty; auto with nc|].
+  destruct (byte_eqb b x0d); auto with nc.
+Qed.
+Global Hint Resolve NC_ws NC_comment NC_newline : nc.
+Global Hint Resolve B_ws : msg.
+
+Lemma NC_context {A} (p : parser A) : NC p -> NC (context p).
+Proof. intros H i e i'. unfold context. destruct (p i) eqn:E; try discriminate. exfalso. exact (H _ _ _ E). Qed.
+Global Hint Resolve NC_context : nc.
+
+Lemma skipn_head (l : bytes) : forall p b r, skipn p l = b :: r -> nth_error l p = Some b /\ skipn (S p) l = r.
+Proof.
+  induction l as [|x l IH]; intros p b r H.
+  - rewrite skipn_nil in H. discriminate.
+  - destruct p as [|p]; [cbn in H; injection H as -> ->; auto|]. cbn [skipn nth_error] in *. apply IH; exact H.
+Qed.
+
+Lemma wf_head s i b r : wf s i -> rest i = b :: r ->
+  nth_error s (N.to_nat (pos i)) = Some b /\ skipn (S (N.to_nat (pos i))) s = r.
+Proof. intros [H1 _] Hr. rewrite Hr in H1. apply skipn_head. symmetry. exact H1. Qed.
+
+Definition starts_with_lf (r : bytes) : bool := match r with c :: _ => byte_eqb c x0a | [] => false end.
+
+Lemma bare_cr_here s i r : wf s i -> rest i = x0d :: r -> starts_with_lf r = false ->
+  bare_cr_b s (N.to_nat (pos i)) = true.
+Proof.
+  intros Hi Hr Hn. destruct (wf_head s i _ _ Hi Hr) as [H1 H2]. unfold bare_cr_b. rewrite H1.
+  cbn [byte_eqb]. rewrite byte_eqb_refl. cbn [andb].
+  destruct r as [|c r'].
+  - assert (E : nth_error s (S (N.to_nat (pos i))) = None).
+    { apply nth_error_None. destruct (le_lt_dec (length s) (S (N.to_nat (pos i)))) as [|Hlt]; [assumption|].
+      exfalso. assert (L : length (skipn (S (N.to_nat (pos i))) s) = 0) by (rewrite H2; reflexivity).
+      rewrite skipn_length in L. lia. }
+    rewrite E. reflexivity.
+  - destruct (skipn_head s _ _ _ H2) as [H3 _]. rewrite H3. cbn in Hn. rewrite Hn. reflexivity.
+Qed.
+
+Lemma byte_eqb_comm a b : byte_eqb a b = byte_eqb b a.
+Proof.
+  destruct (byte_eqb a b) eqn:E1; destruct (byte_eqb b a) eqn:E2; try reflexivity.
+  - apply byte_eqb_eq in E1. subst. rewrite byte_eqb_refl in E2. discriminate.
+  - apply byte_eqb_eq in E2. subst. rewrite byte_eqb_refl in E1. discriminate.
+Qed.
+
+Lemma rest_advance1 i b r : rest i = b :: r -> rest (advance 1 i) = r.
+Proof. intro H. unfold advance. cbn [rest]. rewrite H. reflexivity. Qed.
+
+(* newline on a CR: fails exactly when no LF follows, and then the cursor is past the CR *)
+Lemma newline_cr i r : rest i = x0d :: r ->
+  newline i = if starts_with_lf r then Ok tt (advance 1 (advance 1 i)) else Bt err0 (advance 1 i).
+Proof.
+  intro Hr. unfold newline, bind, any. rewrite Hr.
+  change (byte_eqb x0d x0a) with false. change (byte_eqb x0d x0d) with true. cbv iota.
+  unfold pvoid, pmap, byte_, one_of. rewrite (rest_advance1 _ _ _ Hr).
+  unfold starts_with_lf. destruct r as [|c r']; [reflexivity|].
+  unfold LF. rewrite (byte_eqb_comm x0a c). destruct (byte_eqb c x0a); reflexivity.
+Qed.
+
+Lemma newline_lf i r : rest i = x0a :: r -> newline i = Ok tt (advance 1 i).
+Proof.
+  intro Hr. unfold newline, bind, any. rewrite Hr.
+  change (byte_eqb x0a x0a) with true. reflexivity.
+Qed.
+
+Lemma take_while0_ok f j : exists got, take_while0 f j = Ok got (advance (length got) j).
+Proof. unfold take_while0, take_while_mn. eexists. reflexivity. Qed.
+
+(* a comment started on '#' succeeds *)
+Lemma comment_head i r : rest i = x23 :: r -> exists i1, comment i = Ok tt i1.
+Proof.
+  intro Hr. unfold comment, bind, byte_, one_of. rewrite Hr.
+  change (byte_eqb COMMENT_START_SYMBOL x23) with true. cbv iota.
+  destruct (take_while0_ok (in_class NON_EOL) (advance 1 i)) as (got & ->). eexists. reflexivity.
+Qed.
+
+Lemma NC_wcn_f fuel : forall start i e i', ws_comment_newline_f fuel start i <> Cut e i'.
+Proof.
+  induction fuel as [|f IH]; intros start i e i'; cbn [ws_comment_newline_f]; [discriminate|].
+  destruct (ws i) as [x i1|e1 i1|e1 i1|st] eqn:Ew; try discriminate.
+  - cbv zeta. destruct (rest i1) as [|b r]; [discriminate|].
+    assert (Hstep : forall p : parser unit, NC p ->
+              match p i1 with
+              | Ok _ i2 => if (pos i2 =? start)%N then Ok tt i2 else ws_comment_newline_f f (pos i2) i2
+              | Bt e i' => Bt e i'
+              | Cut e i' => Cut e i'
+              | Panic s => Panic s
+              end <> Cut e i').
+    { intros p Hp. destruct (p i1) as [y i2|e2 i2|e2 i2|st] eqn:Ep; try discriminate.
+      - destruct (pos i2 =? start)%N; [discriminate|apply IH].
+      - exfalso. exact (Hp _ _ _ Ep). }
+    destruct (byte_eqb b x23); [apply Hstep; auto with nc|].
+    destruct (byte_eqb b x0a); [apply Hstep; auto with nc|].
+    destruct (byte_eqb b x0d); [apply Hstep; auto with nc|]. discriminate.
+  - exfalso. exact (NC_ws _ _ _ Ew).
+Qed.
+
+Lemma NC_wcn : NC ws_comment_newline.
+Proof. intros i e i'. unfold ws_comment_newline. apply NC_wcn_f. Qed.
+Global Hint Resolve NC_wcn : nc.
+
+Lemma pos_advance n i : pos (advance n i) = (pos i + N.of_nat n)%N.
+Proof. reflexivity. Qed.
+
+Lemma good_after_cr s i r : wf s i -> rest i = x0d :: r -> starts_with_lf r = false ->
+  good s err0 (advance 1 i).
+Proof.
+  intros Hi Hr Hn. right. unfold bare_cr_near. rewrite pos_advance.
+  assert (Z : ((pos i + N.of_nat 1 =? 0) = false)%N) by (apply N.eqb_neq; lia). rewrite Z.
+  replace (N.to_nat (pos i + N.of_nat 1) - 1) with (N.to_nat (pos i)) by lia.
+  rewrite (bare_cr_here s i r Hi Hr Hn). apply orb_true_r.
+Qed.
+
+Lemma B_wcn_f s fuel : forall start i e i', wf s i -> ws_comment_newline_f fuel start i = Bt e i' -> good s e i'.
+Proof.
+  induction fuel as [|f IH]; intros start i e i' Hi H; cbn [ws_comment_newline_f] in H; [discriminate|].
+  pose proof (pres_ws s i Hi) as W.
+  destruct (ws i) as [x i1|e1 i1|e1 i1|st] eqn:Ew; cbn [wfr] in W; try discriminate.
+  - cbv zeta in H. destruct (rest i1) as [|b r] eqn:Hr; [discriminate|].
+    destruct (byte_eqb b x23) eqn:E1.
+    { apply byte_eqb_eq in E1. subst b. unfold bind in H.
+      destruct (comment_head i1 r Hr) as (i2 & Ec).
+      pose proof (pres_comment s i1 W) as W2. rewrite Ec in H, W2. cbn [wfr] in W2.
+      pose proof (pres_context s newline (pres_newline s) i2 W2) as W3.
+      destruct (context newline i2) as [y i3|e3 i3|e3 i3|st] eqn:En; cbn [wfr] in W3; try discriminate.
+      - destruct (pos i3 =? start)%N; [discriminate|]. eapply IH; [exact W3|exact H].
+      - injection H as <- <-. left. eapply context_err. right. exact En. }
+    destruct (byte_eqb b x0a) eqn:E2.
+    { apply byte_eqb_eq in E2. subst b. pose proof (pres_newline s i1 W) as W2.
+      rewrite (newline_lf i1 r Hr) in H, W2. cbn [wfr] in W2.
+      destruct (pos (advance 1 i1) =? start)%N; [discriminate|]. eapply IH; [exact W2|exact H]. }
+    destruct (byte_eqb b x0d) eqn:E3; [|discriminate].
+    apply byte_eqb_eq in E3. subst b. pose proof (pres_newline s i1 W) as W2.
+    rewrite (newline_cr i1 r Hr) in H, W2. destruct (starts_with_lf r) eqn:El; cbn [wfr] in W2.
+    + destruct (pos (advance 1 (advance 1 i1)) =? start)%N; [discriminate|]. eapply IH; [exact W2|exact H].
+    + injection H as <- <-. apply (good_after_cr s i1 r W Hr El).
+  - injection H as <- <-. eapply B_ws; [exact Hi|exact Ew].
+Qed.
+
+Lemma B_wcn s : B s ws_comment_newline.
+Proof. intros i e i' Hi. unfold ws_comment_newline. apply B_wcn_f; exact Hi. Qed.
+Global Hint Resolve B_wcn : msg.
+
+(* ---- Strings --------------------------------------------------------------------------- *)
+Lemma C_from_utf8 s p : C s p -> C s (from_utf8 p).
+Proof. intro H. unfold from_utf8. msg_auto. Qed.
+Lemma B_from_utf8 s p : B s p -> B s (from_utf8 p).
+Proof. intro H. unfold from_utf8. msg_auto. Qed.
+Global Hint Resolve C_from_utf8 B_from_utf8 : msg.
+
+Lemma C_escape_seq_char s : C s escape_seq_char.
+Proof. unfold escape_seq_char. msg_auto. Qed.
+Global Hint Resolve C_escape_seq_char : msg.
+
+Lemma C_escaped s : C s escaped.
+Proof. unfold escaped. msg_auto. Qed.
+Global Hint Resolve C_escaped : msg.
+
+Lemma C_basic_chars s : C s basic_chars.
+Proof. unfold basic_chars. msg_auto. Qed.
+Global Hint Resolve C_basic_chars : msg.
+
+Lemma C_chunks_f s fuel p : pres s p -> C s p -> forall acc, C s (chunks_f fuel p acc).
+Proof.
+  intros Hw Hp. induction fuel as [|f IH]; intros acc i e i' Hi; cbn [chunks_f]; [nope|].
+  pose proof (Hw i Hi) as W. destruct (p i) as [a i1|e1 i1|e1 i1|st] eqn:E; try nope.
+  - destruct (Nat.eqb (length (rest i1)) (length (rest i))); [nope|]. apply IH; exact W.
+  - intro E2. injection E2 as <- <-. eapply Hp; [exact Hi|exact E].
+Qed.
+Lemma C_chunks s p : pres s p -> C s p -> C s (chunks p).
+Proof. intros Hw Hp i e i' Hi. unfold chunks. apply C_chunks_f; assumption. Qed.
+
+Lemma C_basic_string s : C s basic_string.
+Proof.
+  unfold basic_string. apply C_bind; [pres_auto|msg_auto|intro].
+  apply C_bind; [pres_auto|apply C_chunks; [pres_auto|msg_auto]|intro]. msg_auto.
+Qed.
+Global Hint Resolve C_basic_string : msg.
+
+Lemma C_ml_basic_string s : C s ml_basic_string.
+Proof. unfold ml_basic_string. msg_auto. Qed.
+Global Hint Resolve C_ml_basic_string : msg.
+
+Lemma C_ml_literal_string s : C s ml_literal_string.
+Proof. unfold ml_literal_string. msg_auto. Qed.
+Global Hint Resolve C_ml_literal_string : msg.
+
+Lemma C_literal_string s : C s literal_string.
+Proof. unfold literal_string. msg_auto. Qed.
+Lemma B_literal_string s : B s literal_string.
+Proof. unfold literal_string. msg_auto. Qed.
+Global Hint Resolve C_literal_string B_literal_string : msg.
+
+Lemma C_string s : C s string_.
+Proof. unfold string_. msg_auto. Qed.
+Lemma B_string s : B s string_.
+Proof. unfold string_. msg_auto. Qed.
+Global Hint Resolve C_string B_string : msg.
+
+(* ---- Datetime / Numbers ------------------------------------------------------------------ *)
+Lemma C_date_time s : C s date_time.
+Proof. unfold date_time. msg_auto. Qed.
+Lemma B_date_time s : B s date_time.
+Proof. unfold date_time. msg_auto. Qed.
+Lemma C_float s : C s float.
+Proof. unfold float. msg_auto. Qed.
+Lemma B_float s : B s float.
+Proof. unfold float. msg_auto. Qed.
+Global Hint Resolve C_date_time B_date_time C_float B_float : msg.
+
+Lemma int_of_sub_cut r a e :
+  match int_of r a with TmOk z => SubOk z | TmErr c => SubCut (err_of c) | TmPanic st => SubPanic st end = SubCut e ->
+  labelled e.
+Proof. destruct (int_of r a); intro H; try discriminate. injection H as <-. left. discriminate. Qed.
+Lemma int_of_sub_bt r a e :
+  match int_of r a with TmOk z => SubOk z | TmErr c => SubCut (err_of c) | TmPanic st => SubPanic st end = SubBt e ->
+  labelled e.
+Proof. destruct (int_of r a); discriminate. Qed.
+
+Lemma LAB_integer s : LAB s integer.
+Proof.
+  assert (H16 : LAB s (cut_err (try_map (int_of 16) hex_int))).
+  { unfold hex_int, prefixed_int. split; msg_auto. }
+  assert (H8 : LAB s (cut_err (try_map (int_of 8) oct_int))).
+  { unfold oct_int, prefixed_int. split; msg_auto. }
+  assert (H2 : LAB s (cut_err (try_map (int_of 2) bin_int))).
+  { unfold bin_int, prefixed_int. split; msg_auto. }
+  assert (Cd : C s dec_int) by (unfold dec_int; msg_auto).
+  assert (Bd : B s dec_int) by (unfold dec_int; msg_auto).
+  split; intros i e i' Hi; unfold integer; cbv zeta;
+    (destruct (bytes_eqb (firstn 2 (rest i)) [x30; x78]); [apply H16; exact Hi|]);
+    (destruct (bytes_eqb (firstn 2 (rest i)) [x30; x6f]); [apply H8; exact Hi|]);
+    (destruct (bytes_eqb (firstn 2 (rest i)) [x30; x62]); [apply H2; exact Hi|]).
+  - apply (C_and_then s dec_int _ Cd (int_of_sub_cut 10)); exact Hi.
+  - apply (B_and_then s dec_int _ Bd (int_of_sub_bt 10)); exact Hi.
+Qed.
+Lemma C_integer s : C s integer. Proof. apply LAB_integer. Qed.
+Lemma B_integer s : B s integer. Proof. apply LAB_integer. Qed.
+Global Hint Resolve C_integer B_integer : msg.
+
+(* ---- Parse: keys, arrays, inline tables, values ------------------------------------------- *)
+Lemma C_key s : C s key_.
+Proof. unfold key_. msg_auto. Qed.
+Lemma B_key s : B s key_.
+Proof. unfold key_. msg_auto. Qed.
+Global Hint Resolve C_key B_key : msg.
+
+Lemma B_peek_opt s {A} (p : parser A) : B s (peek (opt p)).
+Proof. intros i e i' _. unfold peek, opt. destruct (p i); nope. Qed.
+Global Hint Resolve B_peek_opt : msg.
+
+(* a parser that starts with `byte_ x` and is started on x *)
+Lemma byte_head x i r : rest i = x :: r -> byte_ x i = Ok x (advance 1 i).
+Proof. intro Hr. unfold byte_, one_of. rewrite Hr, byte_eqb_refl. reflexivity. Qed.
+
+Section KnotMsg.
+  Variable s : bytes.
+  Variable value_rec : parser value.
+  Hypothesis Wrec : pres s value_rec.
+  Hypothesis Crec : C s value_rec.
+  Hypothesis Brec : B s value_rec.
+
+  Lemma C_array_value : C s (array_value value_rec).
+  Proof. unfold array_value. msg_auto. Qed.
+
+  Lemma LAB_array_values : LAB s (array_values value_rec).
+  Proof. pose proof C_array_value. unfold array_values. split; msg_auto. Qed.
+
+  (* the part of `array` after the opening bracket *)
+  Definition array_tail : parser value :=
+    a <- cut_err (array_values value_rec) ;; context (cut_err (byte_ ARRAY_CLOSE)) ;;; ret a.
+
+  Lemma LAB_array_tail : LAB s array_tail.
+  Proof. destruct LAB_array_values as [Ca Ba]. unfold array_tail. split; msg_auto. Qed.
+
+  Lemma array_on_open i r : rest i = ARRAY_OPEN :: r -> array value_rec i = array_tail (advance 1 i).
+  Proof. intro Hr. unfold array. unfold bind at 1. rewrite (byte_head _ _ _ Hr). reflexivity. Qed.
+
+  Lemma C_inline_keyval : C s (inline_keyval value_rec).
+  Proof. unfold inline_keyval. msg_auto. Qed.
+
+  Definition inline_tail : parser value :=
+    t <- cut_err (try_map (fun '(kv, p) => table_from_pairs kv p)
+                    (kv <- separated0 (inline_keyval value_rec) (byte_ INLINE_TABLE_SEP) ;;
+                     p <- span_ ws ;;
+                     ret (kv, raw_with_span p))) ;;
+    context (cut_err (byte_ INLINE_TABLE_CLOSE)) ;;;
+    ret t.
+
+  Lemma LAB_inline_tail : LAB s inline_tail.
+  Proof. pose proof C_inline_keyval. pose proof (pres_inline_keyval s value_rec Wrec). unfold inline_tail. split; msg_auto. Qed.
+
+  Lemma inline_on_open i r : rest i = INLINE_TABLE_OPEN :: r -> inline_table value_rec i = inline_tail (advance 1 i).
+  Proof. intro Hr. unfold inline_table. unfold bind at 1. rewrite (byte_head _ _ _ Hr). reflexivity. Qed.
+
+  (* check_recursion around a parser whose first byte is known *)
+  Lemma check_recursion_head {A} (p q : parser A) x i r :
+    (forall j r', rest j = x :: r' -> p j = q (advance 1 j)) ->
+    pres s q -> LAB s q -> wf s i -> rest i = x :: r -> lab_at s (check_recursion p) i.
+  Proof.
+    intros Hpq Wq [Cq Bq] Hi Hr e i'. unfold check_recursion. cbv zeta.
+    set (i1 := set_depth (S (depth i)) i).
+    assert (W1 : wf s i1) by (apply wf_set_depth; exact Hi).
+    assert (R1 : rest i1 = x :: r) by exact Hr.
+    destruct (Nat.leb LIMIT (depth i1)).
+    { intros [E|E]; [|discriminate]. injection E as <- <-. apply good_cause. }
+    rewrite (Hpq i1 r R1).
+    assert (W2 : wf s (advance 1 i1)) by (apply wf_advance; [exact W1|rewrite R1; cbn; lia]).
+    destruct (q (advance 1 i1)) as [a i2|e2 i2|e2 i2|st] eqn:Eq.
+    - destruct (depth i2); intros [E|E]; discriminate.
+    - intros [E|E]; [discriminate|]. injection E as <- <-. eapply Bq; [exact W2|exact Eq].
+    - intros [E|E]; [|discriminate]. injection E as <- <-. eapply Cq; [exact W2|exact Eq].
+    - intros [E|E]; discriminate.
+  Qed.
+
+  Lemma peek_any_ok i b i1 : context (peek any) i = Ok b i1 -> i1 = i /\ exists r, rest i = b :: r.
+  Proof.
+    unfold context, peek, any. destruct (rest i) as [|c r] eqn:Hr; [discriminate|].
+    intro H. injection H as <- <-. eauto.
+  Qed.
+
+  Lemma lab_value_body i : wf s i -> lab_at s (value_body value_rec) i.
+  Proof.
+    intros Hi e i'. unfold value_body. unfold bind.
+    destruct (context (peek any) i) as [b i1|e1 i1|e1 i1|st] eqn:Ep.
+    2:{ intros [E|E]; [discriminate|]. injection E as <- <-. left. eapply context_err. right. exact Ep. }
+    2:{ intros [E|E]; [|discriminate]. injection E as <- <-. left. eapply context_err. left. exact Ep. }
+    2:{ intros [E|E]; discriminate. }
+    destruct (peek_any_ok _ _ _ Ep) as [-> [r Hr]].
+    destruct (byte_eqb b QUOTATION_MARK || byte_eqb b APOSTROPHE).
+    { apply LAB_at; [|exact Hi]. split; msg_auto. }
+    destruct (byte_eqb b ARRAY_OPEN) eqn:Ea.
+    { apply byte_eqb_eq in Ea. subst b.
+      eapply check_recursion_head; [apply array_on_open| |apply LAB_array_tail|exact Hi|exact Hr].
+      unfold array_tail. pose proof (pres_array_values s value_rec Wrec). pres_auto. }
+    destruct (byte_eqb b INLINE_TABLE_OPEN) eqn:Et.
+    { apply byte_eqb_eq in Et. subst b.
+      eapply check_recursion_head; [apply inline_on_open| |apply LAB_inline_tail|exact Hi|exact Hr].
+      unfold inline_tail. pose proof (pres_inline_keyval s value_rec Wrec). pres_auto. }
+    destruct (in_class VALUE_NUMBER_START b).
+    { apply LAB_at; [|exact Hi]. split; msg_auto. }
+    repeat (match goal with |- lab_at _ (if ?c then _ else _) _ => destruct c end;
+            [apply LAB_at; [split; msg_auto|exact Hi]|]).
+    apply LAB_at; [split; msg_auto|exact Hi].
+  Qed.
+
+  Lemma LAB_value_step : LAB s (value_step value_rec).
+  Proof.
+    unfold value_step. split; intros i e i' Hi; unfold pmap, with_span;
+      destruct (value_body value_rec i) as [a i2|e2 i2|e2 i2|st] eqn:E; try nope;
+      intro E2; injection E2 as <- <-; apply (lab_value_body i Hi); auto.
+  Qed.
+End KnotMsg.
+
+Lemma LAB_value_f s fuel : LAB s (value_f fuel).
+Proof.
+  induction fuel as [|f [IHc IHb]]; cbn [value_f].
+  - split; intros i e i' _ E; discriminate.
+  - pose proof (LAB_value_step s (value_f f) (pres_value_f s f) IHc IHb) as [Hc Hb].
+    split; intros i e i' Hi E; [eapply Hc|eapply Hb]; eassumption.
+Qed.
+
+Lemma LAB_value s : LAB s value_.
+Proof.
+  split; intros i e i' Hi; unfold value_; apply (LAB_value_f s (S (length (rest i)))); exact Hi.
+Qed.
+Lemma C_value s : C s value_. Proof. apply LAB_value. Qed.
+Lemma B_value s : B s value_. Proof. apply LAB_value. Qed.
+Global Hint Resolve C_value B_value : msg.
+
+(* ---- Document ------------------------------------------------------------------------------ *)
+Lemma LAB_parse_keyval s : LAB s parse_keyval.
+Proof. unfold parse_keyval. split; msg_auto. Qed.
+
+Lemma LAB_keyval s st : LAB s (keyval st).
+Proof. destruct (LAB_parse_keyval s). unfold keyval. split; msg_auto. Qed.
+
+Lemma LAB_table s st : LAB s (table st).
+Proof. unfold table. split; msg_auto. Qed.
+
+(* a stand-alone comment line: every error is labelled (since the repair of parse_comment) *)
+Lemma lab_parse_comment s st i r : rest i = COMMENT_START_SYMBOL :: r -> lab_at s (parse_comment st) i.
+Proof.
+  intros Hr e i'. unfold parse_comment, pmap, span_, bind.
+  destruct (comment_head i r Hr) as (i1 & ->).
+  destruct (context line_ending i1) as [y i2|e2 i2|e2 i2|stt] eqn:E.
+  - intros [X|X]; discriminate.
+  - intros [X|X]; [discriminate|]. injection X as <- <-. left. eapply context_err. right. exact E.
+  - intros [X|X]; [|discriminate]. injection X as <- <-. left. eapply context_err. left. exact E.
+  - intros [X|X]; discriminate.
+Qed.
+
+Lemma peek_any_plain i b i1 : peek any i = Ok b i1 -> i1 = i /\ exists r, rest i = b :: r.
+Proof.
+  unfold peek, any. destruct (rest i) as [|c r] eqn:Hr; [discriminate|].
+  intro H. injection H as <- <-. eauto.
+Qed.
+
+(* parse_ws never fails (it may only reach the unchecked-UTF-8 panic site, which is no error value) *)
+Lemma parse_ws_no_err st i e i' : parse_ws st i <> Bt e i' /\ parse_ws st i <> Cut e i'.
+Proof.
+  unfold parse_ws, pmap, span_, ws, unchecked_utf8.
+  destruct (take_while0_ok (in_class WSCHAR) i) as (got & ->).
+  destruct (utf8_valid_b got); split; discriminate.
+Qed.
+
+(* one line of the document: Cut errors are good *)
+Lemma C_doc_line s st : C s (doc_line st).
+Proof.
+  intros i e i' Hi. unfold doc_line. unfold bind at 1.
+  destruct (peek any i) as [b i1|e1 i1|e1 i1|stt] eqn:Ep; try nope.
+  2:{ exfalso. revert Ep. unfold peek, any. destruct (rest i); discriminate. }
+  destruct (peek_any_plain _ _ _ Ep) as [-> [r Hr]].
+  unfold bind.
+  set (arm := if byte_eqb b COMMENT_START_SYMBOL then cut_err (parse_comment st)
+              else if byte_eqb b STD_TABLE_OPEN then cut_err (table st)
+              else if byte_eqb b LF || byte_eqb b CR then parse_newline st
+              else cut_err (keyval st)).
+  assert (Harm : forall e2 i2, arm i = Cut e2 i2 -> good s e2 i2).
+  { intros e2 i2. unfold arm. destruct (byte_eqb b COMMENT_START_SYMBOL) eqn:E1.
+    { apply byte_eqb_eq in E1. subst b. unfold cut_err.
+      pose proof (lab_parse_comment s st i r Hr) as Hl.
+      destruct (parse_comment st i) as [y j|e3 j|e3 j|stt] eqn:Ec; try nope;
+        intro X; injection X as <- <-; apply Hl; auto. }
+    destruct (byte_eqb b STD_TABLE_OPEN).
+    { destruct (LAB_table s st) as [Ct Bt']. intro X. eapply (C_cut_err s _ Ct Bt'); [exact Hi|exact X]. }
+    destruct (byte_eqb b LF || byte_eqb b CR).
+    { intro X. exfalso. revert X. unfold parse_newline. apply NC_pmap.
+      intros j e3 j'. unfold span_. destruct (newline j) eqn:En; try discriminate.
+      exfalso. exact (NC_newline _ _ _ En). }
+    destruct (LAB_keyval s st) as [Ck Bk]. intro X. eapply (C_cut_err s _ Ck Bk); [exact Hi|exact X]. }
+  destruct (arm i) as [st1 j|e3 j|e3 j|stt] eqn:Ea; try nope.
+  - intro X. exfalso. exact (proj2 (parse_ws_no_err st1 j e i') X).
+  - intro X. injection X as <- <-. apply Harm. reflexivity.
+Qed.
+
+(* when one line fails WITHOUT a cut, the input is at its end or at a bare CR *)
+Lemma doc_line_bt s st i e i' : wf s i -> doc_line st i = Bt e i' ->
+  rest i = [] \/ bare_cr_b s (N.to_nat (pos i)) = true.
+Proof.
+  intros Hi. unfold doc_line. unfold bind at 1.
+  destruct (peek any i) as [b i1|e1 i1|e1 i1|stt] eqn:Ep; try nope.
+  2:{ intros _. left. revert Ep. unfold peek, any. destruct (rest i); [reflexivity|discriminate]. }
+  destruct (peek_any_plain _ _ _ Ep) as [-> [r Hr]]. right. revert H. unfold bind.
+  destruct (byte_eqb b COMMENT_START_SYMBOL).
+  { unfold cut_err. destruct (parse_comment st i) as [st1 j| | |]; try nope.
+    intro X. exfalso. exact (proj1 (parse_ws_no_err st1 j e i') X). }
+  destruct (byte_eqb b STD_TABLE_OPEN).
+  { unfold cut_err. destruct (table st i) as [st1 j| | |]; try nope.
+    intro X. exfalso. exact (proj1 (parse_ws_no_err st1 j e i') X). }
+  destruct (byte_eqb b LF || byte_eqb b CR) eqn:Enl.
+  2:{ unfold cut_err. destruct (keyval st i) as [st1 j| | |]; try nope.
+      intro X. exfalso. exact (proj1 (parse_ws_no_err st1 j e i') X). }
+  unfold parse_newline, pmap, span_.
+  apply orb_true_iff in Enl as [El|Ec]; apply byte_eqb_eq in El || apply byte_eqb_eq in Ec; subst b.
+  - rewrite (newline_lf i r Hr). intro X. exfalso. exact (proj1 (parse_ws_no_err _ _ e i') X).
+  - rewrite (newline_cr i r Hr). destruct (starts_with_lf r) eqn:Es.
+    + intro X. exfalso. exact (proj1 (parse_ws_no_err _ _ e i') X).
+    + intros _. apply (bare_cr_here s i r Hi Hr Es).
+Qed.
+
+Lemma doc_loop_res s fuel : forall st i, wf s i ->
+  match doc_loop fuel st i with
+  | Ok _ i' => wf s i' /\ (rest i' = [] \/ bare_cr_b s (N.to_nat (pos i')) = true)
+  | Bt _ _ => False
+  | Cut e i' => good s e i'
+  | Panic _ => True
+  end.
+Proof.
+  induction fuel as [|f IH]; intros st i Hi; cbn [doc_loop]; [exact I|].
+  pose proof (pres_doc_line s st i Hi) as W.
+  destruct (doc_line st i) as [st' i1|e1 i1|e1 i1|stt] eqn:E; cbn [wfr] in W.
+  - destruct (Nat.eqb (length (rest i1)) (length (rest i))); [exact I|]. apply IH; exact W.
+  - split; [exact Hi|]. eapply doc_line_bt; [exact Hi|exact E].
+  - eapply C_doc_line; [exact Hi|exact E].
+  - exact I.
+Qed.
+
+Lemma document_res s i : wf s i ->
+  match document i with
+  | Ok _ i' => rest i' = []
+  | Bt e i' => good s e i'
+  | Cut e i' => good s e i'
+  | Panic _ => True
+  end.
+Proof.
+  intro Hi. unfold document. unfold bind at 1.
+  assert (W0 : pres s (opt (lit bom))) by pres_auto. specialize (W0 i Hi).
+  destruct (opt (lit bom) i) as [o i1|e1 i1|e1 i1|stt] eqn:E0; cbn [wfr] in W0.
+  2:{ exfalso. revert E0. unfold opt. destruct (lit bom i); discriminate. }
+  2:{ exfalso. revert E0. apply NC_opt, NC_lit. }
+  2:{ exact I. }
+  unfold bind at 1. pose proof (pres_parse_ws s state_new i1 W0) as W1.
+  destruct (parse_ws state_new i1) as [st i2|e2 i2|e2 i2|stt] eqn:E1; cbn [wfr] in W1.
+  2:{ exfalso. exact (proj1 (parse_ws_no_err _ _ _ _) E1). }
+  2:{ exfalso. exact (proj2 (parse_ws_no_err _ _ _ _) E1). }
+  2:{ exact I. }
+  unfold bind at 1. pose proof (doc_loop_res s (S (length (rest i2))) st i2 W1) as R.
+  destruct (doc_loop (S (length (rest i2))) st i2) as [st' i3|e3 i3|e3 i3|stt]; try assumption; try contradiction.
+  destruct R as [W3 R]. unfold bind, eof, ret.
+  destruct (rest i3) as [|c r] eqn:Er; [exact Er|].
+  right. destruct R as [R|R]; [discriminate|]. unfold bare_cr_near. rewrite R. reflexivity.
+Qed.
+
+(* the theorem: an error of the document parser is labelled, or a bare CR is at / right before
+   the error offset *)
+Lemma document_message s e at_ :
+  parse_document s = PErr e at_ ->
+  labelled e \/ (exists a, at_ = Some a /\ bare_cr_near s a = true).
+Proof.
+  unfold parse_document, parse_all. unfold bind at 1.
+  pose proof (document_res s (new_input s) (wf_new_input s)) as R.
+  destruct (document (new_input s)) as [st i1|e1 i1|e1 i1|stt].
+  - unfold bind, eof, ret. rewrite R.
+    destruct (finalize_table st) as [st'|c|p]; try discriminate.
+    intro H. injection H as <- <-. left. left. discriminate.
+  - intro H. injection H as <- <-. destruct R as [R|R]; [left; exact R|right; eauto].
+  - intro H. injection H as <- <-. destruct R as [R|R]; [left; exact R|right; eauto].
+  - discriminate.
+Qed.
+
+(* ---- the finding: both positions of the bare CR are reachable, with an empty message ----- *)
+Lemma message_refuted_cr :
+  exists s e at_, parse_document s = PErr e at_ /\ e_cause e = None /\ e_ctx e = false.
+Proof. exists [x0d], err0, (Some 0%N). vm_compute. auto. Qed.
+
+(* "a = [\r]": the span starts AFTER the CR *)
+Lemma message_refuted_array_cr :
+  exists s e at_, parse_document s = PErr e (Some at_) /\ e_cause e = None /\ e_ctx e = false
+                  /\ bare_cr_b s (N.to_nat at_) = false /\ bare_cr_near s at_ = true.
+Proof. exists [x61; x20; x3d; x20; x5b; x0d; x5d], err0, 6%N. vm_compute. auto. Qed.
+
+(* ---- statements in the form used by Props/C15.v ------------------------------------------- *)
+Definition bare_cr_near_o (s : bytes) (at_ : option N) : bool :=
+  match at_ with Some a => bare_cr_near s a | None => false end.
+
+Lemma message_nonempty s e at_ :
+  bare_cr_near_o s at_ = false -> parse_document s = PErr e at_ -> e_cause e <> None \/ e_ctx e = true.
+Proof.
+  intros Hn H. destruct (document_message s e at_ H) as [L|(a & -> & Hb)]; [exact L|].
+  cbn in Hn. congruence.
+Qed.
+
+(* everything together for one rejected document: the TomlError built from the parser's error
+   has a span inside the document on character boundaries that covers the error offset, renders
+   without panic, and shows the line and column of the span start as the specification counts *)
+Lemma located s e at_ :
+  utf8_valid_b s = true -> parse_document s = PErr e (Some at_) ->
+  exists a b r,
+    te_span (toml_error_new s e at_) = Some (a, b)
+    /\ a <= b /\ b <= length s
+    /\ char_boundary_b s (N.of_nat a) = true /\ char_boundary_b s (N.of_nat b) = true
+    /\ a <= N.to_nat at_
+    /\ render s (a, b) = ROk r
+    /\ r_line_num r = lines_before s a + 1
+    /\ r_col_num r = chars_since_line_start s a + 1.
+Proof.
+  intros Hv H. pose proof (document_offset_in_range s e at_ H) as Hr.
+  assert (Hoff : N.to_nat at_ <= length s) by lia.
+  unfold toml_error_new. cbn [te_span].
+  pose proof (span_ok s (N.to_nat at_) Hv Hoff) as Hs.
+  destruct (render_total s (N.to_nat at_) Hv Hoff) as [r Er].
+  pose proof (render_position s (N.to_nat at_) r Hv Hoff Er) as [Hl Hc].
+  destruct (char_span s (N.to_nat at_)) as [a b]. cbn [fst] in *.
+  exists a, b, r. intuition.
+Qed.
